@@ -10,8 +10,9 @@
    No bound on the number of entries, alternatives, terms or on any length: the proofs are
    inductions over the abstract field.
 
-   The reader is the model of the code as of /repo c2fa7c8, i.e. with the fixes this property
-   led to: 0eb8794 + c2fa7c8 (epoch and further colons in a version), 43dd02f (whitespace before
+   The reader is the model of the code as of /repo 4b18f7c, i.e. with the fixes this property
+   led to: 0eb8794 + c2fa7c8 + 4b18f7c (a version is the run of IDENT and COLON tokens: epoch,
+   further colons, empty parts -- the last outside this grammar), 43dd02f (whitespace before
    ")"), 541b0f5 (architectures() keeps the "!").  For the code before them see C10_prefix_epoch_refuted,
    C10_prefix_space_refuted and C10_prefix_arch_negation_refuted below. *)
 From V.model Require Import Base RelLex RelParse RelAcc RelGrammar.
